@@ -361,20 +361,26 @@ pub fn execute(trace: &Trace, keep_log: bool) -> (crate::kit::RunReport, Vec<Str
         c.w.harness_error(format!("setup: {e}"));
         return c.w.finish();
     }
+    let mut aborted = false;
     for (i, st) in steps.iter().enumerate() {
         c.w.step_no = i + 1;
         if let Err(e) = exec_step(&mut c, st) {
-            c.w.harness_error(format!("step {i} {st:?}: {e}"));
+            if e != "node cannot restart" {
+                c.w.harness_error(format!("step {i} {st:?}: {e}"));
+            }
+            aborted = true;
             break;
         }
         if !c.w.report.harness_errors.is_empty() {
             break;
         }
     }
-    if c.w.report.harness_errors.is_empty() {
+    if c.w.report.harness_errors.is_empty() && !aborted {
         c.w.step_no = steps.len() + 1;
         if let Err(e) = finale(&mut c) {
-            c.w.harness_error(format!("finale: {e}"));
+            if e != "node cannot restart" {
+                c.w.harness_error(format!("finale: {e}"));
+            }
         }
     }
     dv::disarm_faults();
